@@ -150,11 +150,9 @@ def _burst_bits(rng, gen, kind=None):
 
 
 def tx_datagram(ver, fn, tn, pwr, bits):
-    import data_msg
-    m = data_msg.TxMsg(fn=fn, tn=tn, ver=ver)
-    m.pwr = pwr
-    m.burst = bytearray(bits)
-    return bytes(m.gen_msg())
+    """An L1 -> TRX datagram as L1 would send it, written here from the protocol layout (not with
+    the toolkit's own encoder: the input of a session must not depend on the code under test)."""
+    return bytes([((ver & 0x0f) << 4) | (tn & 0x07)]) + int(fn).to_bytes(4, "big") + bytes([pwr & 0xff]) + bytes(bits)
 
 
 def unique_tsc(bits):
